@@ -125,6 +125,8 @@ impl<T: UciTx, H: Heuristic, M: MoveOrder> Search<T, H, M> {
                 },
                 Err(error) => {
                     self.uci_tx.debug(&format!("{}", error));
+                    #[cfg(inkayaku_verif)]
+                    crate::engine::verif::drained();
                     return;
                 }
             }
